@@ -115,7 +115,7 @@ def assign_limit(c):
     c.call(k, v, self_val=ctx)
     c.entry = lambda eng, cc, func: _size_after(eng, cc, func, ctx)
     M = c.st.deref(env).fields["local_namespace_limit"].t
-    limited = z3.And(U.is_int(M), U.i(M) != 0)
+    limited = U.is_int(M)
     c.ensures("completed-assign-keeps-measured-size-within-limit", lambda r: z3.Implies(limited, r.value.items[1].t <= U.i(M)))
     c.raises("LocalNamespaceLimitError")
     c.ensures_exc("raises-only-when-limited", lambda r: limited)
@@ -140,7 +140,7 @@ def size_includes_carry(c):
         return outs
     c.entry = entry
     M = c.st.deref(env).fields["local_namespace_limit"].t
-    limited = z3.And(U.is_int(M), U.i(M) != 0)
+    limited = U.is_int(M)
     c.ensures("carry-is-added-to-the-measure", lambda r: z3.Implies(limited, r.value.items[1].t - r.value.items[0].t == c2.t - c1.t))
     c.ensures("measure-non-negative-given-non-negative-carry", lambda r: z3.Implies(z3.And(c1.t >= 0), r.value.items[0].t >= 0))
     c.assume_external(z3.ForAll([z3.Const("s!q", SeqU)], z3.Function("sum_ints", SeqU, I)(z3.Const("s!q", SeqU)) >= 0) , "sys.getsizeof is non-negative, so a sum of sizes is non-negative")
